@@ -422,15 +422,20 @@ func withLyingLookups(sys solvable, lies []*lookupLie) (solvable, int) {
 		}
 		return out
 	}
+	// field-by-field copy (not a struct copy): the system may carry locks of its own
 	switch s := sys.(type) {
 	case *csbn254.R1CS: // = *SparseR1CS (same underlying type)
-		cp := *s
+		cp := new(csbn254.R1CS)
+		cp.System = s.System
+		cp.CoeffTable = s.CoeffTable
 		cp.Blueprints = swap(s.Blueprints)
-		return &cp, n
+		return cp, n
 	case *csbls377.R1CS:
-		cp := *s
+		cp := new(csbls377.R1CS)
+		cp.System = s.System
+		cp.CoeffTable = s.CoeffTable
 		cp.Blueprints = swap(s.Blueprints)
-		return &cp, n
+		return cp, n
 	}
 	return nil, 0
 }
